@@ -48,6 +48,33 @@ CHECKS = {
         'prepare': 'zic',
         'assumptions': ZONENOTE,
     },
+    'C07': {
+        'bins': [rcbin('C07')],
+        'shards': {'quick': 8, 'thorough': 16},
+        'time_limit': {'quick': 600, 'thorough': 3600},
+        'assumptions': ['the lossless format family is the one stated in the property (see the rule); LC_ALL=C pinned (month/day names)'],
+    },
+    'C08': {
+        'bins': [rcbin('C08'), {'name': 'c08fuzz', 'src': 'c08fuzz.cc', 'flavour': 'fuzz'}],
+        'shards': {'quick': 8, 'thorough': 16},
+        'time_limit': {'quick': 600, 'thorough': 3600},
+        'fuzz': {'bin': 'c08fuzz', 'runs': {'quick': 0, 'thorough': 0}, 'max_total_time': {'quick': 30, 'thorough': 300},
+                 'jobs': {'quick': 4, 'thorough': 16}, 'max_len': 256, 'case_key': 'fuzz_input_hex',
+                 'dict': ['"%E*S"', '"%E4Y"', '"%:::z"', '"%E15f"', '"%Ez"', '"%ET"', '"%E1024S"', '"%Ec"', '"%OS"', '"%%"', '"%s"', '"%Z"', '"%U"', '"%W"']},
+        'assumptions': ['fmtref.h: reference renderer written from the format() documentation in time_zone.h; strftime(3) of the C library renders the non-cctz conversions',
+                        'LC_ALL=C, TZ=UTC pinned for every process'],
+    },
+    'C09': {
+        'bins': [rcbin('C09'), {'name': 'c09fuzz', 'src': 'c09fuzz.cc', 'flavour': 'fuzz'}],
+        'shards': {'quick': 8, 'thorough': 16},
+        'time_limit': {'quick': 600, 'thorough': 3600},
+        'fuzz': {'bin': 'c09fuzz', 'runs': {'quick': 0, 'thorough': 0}, 'max_total_time': {'quick': 30, 'thorough': 300},
+                 'jobs': {'quick': 4, 'thorough': 16}, 'max_len': 256, 'case_key': 'fuzz_input_hex',
+                 'dict': ['"%E*S"', '"%E4Y"', '"%Ez"', '"%Y-%m-%d"', '"%H:%M:%S"', '"%s"', '"%U"', '"%W"', '"%p"', '"%I"', '"+00:00"', '"Z"', '"60"', '"2020-02-29"',
+                          '"9223372036854775807"', '"-9223372036854775808"', '"292277026596"']},
+        'assumptions': ['expectations are derived from the construction of each case (independent printer + refcal + zonemodel), never from a second parser',
+                        'LC_ALL=C pinned (names, AM/PM)'],
+    },
     'C10': {
         'bins': [rcbin('C10')],
         'shards': {'quick': 12, 'thorough': 16},
